@@ -426,6 +426,12 @@ class Machine:
                     if "promoted[" in name and c[1].endswith(name):
                         return self.run(f, [])
                 raise Unsupported("promoted constant " + c[1])
+            if re.match(r"^[\w:]+$", c[1]):
+                # a named constant of the crate (const ITEM: T = {..} in the dump)
+                for cand in (c[1], "::".join(c[1].split("::")[-2:]), c[1].split("::")[-1]):
+                    f = self.funcs.get(cand)
+                    if f is not None and not f.params and re.match(r"^[A-Z_0-9]+$", cand.split("::")[-1]):
+                        return self.run(f, [])
             mm = re.match(r"^(?:core::num::<impl )?(u8|u16|u32|u64|usize|i8|i16|i32|i64|isize)>?::(MAX|MIN)$", c[1])
             if mm:
                 bits, signed = INT_BITS[mm.group(1)], mm.group(1).startswith("i")
